@@ -253,8 +253,44 @@ class Bounds:
                 else:
                     changed = True
             alive = keep
+        alive = alive + self.counting_facts()
         self.inv = alive
         return alive
+
+    def counting_facts(self):
+        """Consequences of a verified counting invariant  cell = #{x in q : pred(x)}  (predicate-counter rule) as bounds the linear
+        domain can use:  cell <= len(q);  pred(E) or cell <= len(q) - 1  for the element E about to be evicted (an element that
+        does not satisfy the predicate is not counted);  pred(E) and len(q) >= 1  implies  cell >= 1."""
+        out = []
+        seen = set()
+        for ev in self.m.up_vg.events:
+            if ev.kind != 'int_sub' or not (ev.data[0][0] == 'in' and ev.data[0][1] in self.int_cells and ev.data[1] == lit(1, 'i')):
+                continue
+            cell = ev.data[0][1]
+            if cell in seen:
+                continue
+            try:
+                ok, why = predicate_counter(self, ev)
+            except Exception:
+                ok = False
+            if not ok:
+                continue
+            seen.add(cell)
+            E = predE = None
+            for c in ev.pc:
+                if isinstance(c, tuple):
+                    for x in subterms(c):
+                        if x[0] in ('back', 'front') and x[1][0] == 'in' and x[1][1] in self.buffers:
+                            E, predE = x, c
+            if E is None:
+                continue
+            q = E[1][1]
+            L = ('len', ('in', q))
+            P = ('in', cell)
+            out.append(op('le', P, L))
+            out.append(op('or', predE, op('le', op('iadd', P, lit(1, 'i')), L)))
+            out.append(op('or', neg_cond(predE), op('lt', L, lit(1, 'i')), op('ge', P, lit(1, 'i'))))
+        return out
 
     # ---------------------------------------------------------------- obligations
     def goals_of(self, ev, is_ctor=False, ctx=None):
